@@ -178,6 +178,14 @@ def _check_live(case):
         _step(state0, op1, w=w)
         succ, k, o, nt, v = _step(state1, op2, w=w)
         n += 1 + k
+        if not v and len(w.frames) % state1[0] == 0:
+            # third step: the live object must still answer queries from its CURRENT content (prime - edit - query)
+            cur = W.unpack(w.frames, state1[0])
+            st3, got3, _ = call(w.getSamples, 0, len(cur) / state1[1])
+            n += 1
+            if st3 == "exc" or list(got3) != cur or not math.isclose(w.duration, len(cur) / state1[1], rel_tol=1e-12):
+                v = [Viol("stale-query", f"then {op2}: getSamples(0, duration) = {got3!r} but the recording now holds {cur} "
+                                         f"(duration {w.duration!r})")]
         if v:
             for x in v:
                 x["msg"] = f"after {op1} on a live Wav: " + x["msg"]
@@ -343,7 +351,8 @@ def parts(tier):
                 bounds={"depth": depth, "recording_length_cap": LENCAP, "width_rate_pairs": len(combos)}, max_depth=depth, prune=_prune),
         InputPart("live-sequences", lambda: ((s0, op1) for s0 in [(2, 8, (1, 2, 3, 4, 5)), (1, 44100, (1, 2, 3))]
                                              for op1 in _ops(s0)), _check_live,
-                  rule="every pair (op1, op2) of edit / query calls on ONE live Wav object for 2 recordings, list model in lock step",
+                  rule="every pair (op1, op2) of edit / query calls on ONE live Wav object for 2 recordings, followed by a getSamples/duration query, list "
+                       "model in lock step (prime - edit - query)",
                   bounds={"sequence_length": 2}, chunk=2),
         InputPart("file-round-trip-all-lengths", lambda: _length_cases(quick), _check_file_lengths,
                   rule="EVERY recording length 0..%d at rates {8, 8000, 11025, 16000, 22050, 44100, 48000} (width 2; widths 1 and 4 at three "
